@@ -665,7 +665,9 @@ func init() {
 		wg.Wait()
 		// the proxy between UDP virtual connections and a UDP upstream: datagrams of growing and shrinking sizes
 		udpRuns := 0
-		for k, sizes := range [][]int{growing(16, 640, 40), append(growing(640, 16, 20), growing(16, 1400, 20)...), {64, 64, 64, 2048, 64, 4000, 16}} {
+		for k, sizes := range [][]int{growing(16, 640, 40), append(growing(640, 16, 20), growing(16, 1400, 20)...), {64, 64, 64, 2048, 64, 4000, 16},
+			// a datagram that exactly fills the buffer the relay reads with (io.Discard copies through 8192 bytes), and its neighbours
+			{64, 8192, 64, 8191, 64, 8193, 64}, {2048, 64, 64}, {8192, 64}} {
 			tr, err := runProxyUDP(sizes, k)
 			if err != nil {
 				errs = append(errs, err.Error())
@@ -701,25 +703,65 @@ func runProxyUDP(sizes []int, idx int) (map[string]any, error) {
 		Seq    int  `json:"seq"`
 		N      int  `json:"n"`
 		Intact bool `json:"intact"`
+		Pieces int  `json:"pieces"` // upstream datagrams this client datagram arrived in (C03 speaks of bytes, not of boundaries)
 	}
 	var mu sync.Mutex
 	var recv []got
+	srcs := map[string]bool{}
+	type partial struct {
+		c, seq, size, have int
+		g                  got
+	}
 	go func() {
+		var part *partial
 		buf := make([]byte, 65536)
 		for {
-			n, _, err := up.ReadFrom(buf)
+			n, from, err := up.ReadFrom(buf)
 			if err != nil {
 				return
 			}
-			g := got{Seq: -1, N: n}
+			mu.Lock()
+			srcs[from.String()] = true
+			mu.Unlock()
+			if n >= 8 {
+				// the upstream answers every datagram with its sequence number (a little later, as a server does)
+				ack := append([]byte(nil), buf[4:8]...)
+				time.AfterFunc(3*time.Millisecond, func() { up.WriteTo(ack, from) })
+			}
+			g := got{Seq: -1, N: n, Pieces: 1}
 			if n >= 12 && string(buf[:3]) == "VDG" {
 				c, seq, size := int(buf[3]), int(binary.BigEndian.Uint32(buf[4:])), int(binary.BigEndian.Uint32(buf[8:]))
-				g.Seq, g.Intact = seq, n == size
+				g.Seq, g.Intact = seq, n <= size
 				for i := 12; i < n && i < size; i++ {
 					if buf[i] != vh.DgByte(c, seq, i) {
 						g.Intact = false
 					}
 				}
+				if n < size {
+					// the rest may follow in a datagram of its own
+					part = &partial{c: c, seq: seq, size: size, have: n, g: g}
+					continue
+				}
+			} else if part != nil && n <= part.size-part.have {
+				for i := 0; i < n; i++ {
+					if buf[i] != vh.DgByte(part.c, part.seq, part.have+i) {
+						part.g.Intact = false
+					}
+				}
+				part.have += n
+				part.g.N, part.g.Pieces = part.have, part.g.Pieces+1
+				if part.have < part.size {
+					continue
+				}
+				g, part = part.g, nil
+			}
+			if part != nil {
+				// an incomplete datagram followed by something else: it stays incomplete
+				part.g.Intact = false
+				mu.Lock()
+				recv = append(recv, part.g)
+				mu.Unlock()
+				part = nil
 			}
 			mu.Lock()
 			recv = append(recv, g)
@@ -767,5 +809,11 @@ func runProxyUDP(sizes []int, idx int) (map[string]any, error) {
 	if recv == nil {
 		recv = []got{}
 	}
-	return map[string]any{"id": fmt.Sprintf("proxy:udp:%d", idx), "udp": map[string]any{"sent": sent, "recv": recv}}, nil
+	acks := []int{}
+	for _, e := range rec.Snapshot() {
+		if e["e"] == "Reply" {
+			acks = append(acks, e["a"].(int))
+		}
+	}
+	return map[string]any{"id": fmt.Sprintf("proxy:udp:%d", idx), "udp": map[string]any{"sent": sent, "recv": recv, "acks": acks, "sources": len(srcs)}}, nil
 }
